@@ -36,6 +36,9 @@ pub mod verif_hooks {
     pub static SUBS_FLUSHED: AtomicU64 = AtomicU64::new(0);
     pub static UPDATES_FLUSHED: AtomicU64 = AtomicU64::new(0);
     pub const MANUAL_TICK: std::time::Duration = std::time::Duration::from_millis(15);
+    /// schedule knob: a matcher sleeps this long between announcing the changes of a batch
+    /// (events, last change id) and committing them
+    pub static COMMIT_DELAY_MS: AtomicU64 = AtomicU64::new(0);
     /// in manual mode: the FLUSH_GEN value at which each loop (subscription or update feed id) last flushed
     pub static FLUSHED_AT: std::sync::Mutex<std::collections::BTreeMap<uuid::Uuid, u64>> =
         std::sync::Mutex::new(std::collections::BTreeMap::new());
